@@ -336,7 +336,8 @@ def schedules(tier, seed):
     thorough = tier == "thorough"
     out = []
     seen = set()
-    for cfg, num in (("BuildGen.cfg", 1500 if thorough else 150), ("BuildGen2.cfg", 1500 if thorough else 150)):
+    for cfg, num in (("BuildGen.cfg", 1500 if thorough else 150), ("BuildGen2.cfg", 1500 if thorough else 150),
+                     ("BuildGenCk.cfg", 1500 if thorough else 200)):
         r = vlib.tlc("BuildGen", cfg, workers=1, simulate="num=%d" % num, depth=80, seed=seed, timeout=900)
         if not r["ok"]:
             raise vlib.Machinery("BuildGen failed: %s" % r["error"])
